@@ -128,6 +128,26 @@ def sig_ext_plugin(tape, stack, cache):
     Rec.sig_ext += 1
 
 
+class ExtObject:
+    """an extension that is a BOUND METHOD of an embedder object"""
+
+    def __init__(self) -> None:
+        self.calls = 0
+
+    def fire(self, tape, stack, cache):
+        self.calls += 1
+        Rec.sig_ext += 1
+
+
+EXT_OBJECT = ExtObject()
+
+
+class Supplied:
+    """the contract objects handed to the current run"""
+    inv = None
+    tr = None
+
+
 def global_ext_plugin(tape, stack, cache):
     """the extension registered for the whole PROCESS
     (add_signature_extension): in force for a run unless the run's own
@@ -160,13 +180,24 @@ def ct_plugin(tape, stack, cache):
 
 
 class Invokable:
+    """counts per OBJECT as well: the contract a run reaches has to be the
+    object the embedder supplied, not a copy of it"""
+
+    def __init__(self) -> None:
+        self.calls = 0
+
     def abi(self, args):
+        self.calls += 1
         Rec.invoke += 1
         return [b'iv']
 
 
 class Transfer:
+    def __init__(self) -> None:
+        self.calls = 0
+
     def verify_txn_proof(self, proof):
+        self.calls += 1
         Rec.transfer += 1
         return True
 
@@ -323,7 +354,9 @@ def probes():
     # ... and the same instructions with an extension registered for the
     # whole process: left in force, switched off for the run, or replaced for
     # the run by the run's own plugins argument
-    gl = [('global-ext', {'global_ext': True}),
+    bound = {'plugins': {'signature_extensions': [EXT_OBJECT.fire]}}
+    gl = [('ext-is-bound-method', bound),
+          ('global-ext', {'global_ext': True}),
           ('global-ext-off-for-run', {'global_ext': True, 'plugins':
                                       {'signature_extensions': []}}),
           ('global-ext-replaced-for-run', {'global_ext': True, **plug})]
@@ -495,10 +528,12 @@ def execute(script, kw):
     Rec.reset()
     reset_hook()
     cache_vals = {**FIELDS, **kw.get('cache_vals', {})}
+    Supplied.inv, Supplied.tr = Invokable(), Transfer()
+    EXT_OBJECT.calls = 0
     try:
         _, stack, cache = functions.run_script(
             script, cache_vals,
-            contracts={CID: Invokable(), TID: Transfer()},
+            contracts={CID: Supplied.inv, TID: Supplied.tr},
             additional_flags=dict(kw.get('additional_flags', {})),
             plugins={k: list(v) for k, v in kw.get('plugins', {}).items()},
             stack_max_items=977, stack_max_item_size=1009,
@@ -601,6 +636,20 @@ def _judge(ctx, word, pname, keys, label, kw, top_obs, script, case):
                           f'{exp[name]} (probe {pname}, {label}, context '
                           f'{word or "top"})', case, exp[name], cnt)
             bad = True
+    if not bad and (Supplied.inv.calls != Rec.invoke
+                    or Supplied.tr.calls != Rec.transfer
+                    or (EXT_OBJECT.fire in kw.get('plugins', {}).get(
+                        'signature_extensions', ())
+                        and EXT_OBJECT.calls != Rec.sig_ext)):
+        ctx.violation('embedder-object-not-the-one-reached', 'a contract / '
+                      'bound-method extension was called, but not on the '
+                      f'object the embedder supplied (probe {pname}, {label}, '
+                      f'context {word or "top"}): calls seen by the class '
+                      f'{(Rec.invoke, Rec.transfer, Rec.sig_ext)}, by the '
+                      'supplied objects '
+                      f'{(Supplied.inv.calls, Supplied.tr.calls, EXT_OBJECT.calls)}',
+                      case)
+        bad = True
     if not bad and Hook.problems:
         k, d = Hook.problems[0]
         ctx.violation(k, f'configuration seen by a dispatched instruction '
